@@ -31,7 +31,7 @@ structure ObsCall where
   args : List Nat
   payload : Bytes
   fds : List String
-  deriving Repr
+  deriving Repr, BEq
 
 def parseCall (s : String) : Option ObsCall :=
   match s.splitOn ":" with
@@ -114,7 +114,8 @@ def stepJ (j : J) (sc : List String × List String) : J :=
   let (st, ob) := sc
   match st with
   | "m" :: hex :: fn :: rest =>
-    let bytes := (if hex == "-" then some [] else bytesOfHex? hex).getD []
+    -- however the transport splits the message (`+`), it is the same message (C08)
+    let bytes := ((hex.splitOn "+").map fun x => (if x == "-" then some [] else bytesOfHex? x).getD []).flatten
     let nf := (fn.drop 1).toString.toNat?.getD 0
     let ids := (List.range nf).map fun i => toString (i + j.nextId)
     let h := parseHOut ((kvOf rest "h").getD "ok")
@@ -128,6 +129,17 @@ def stepJ (j : J) (sc : List String × List String) : J :=
         | some cs => cs.all fun c => validCall c.name c.args c.payload c.fds.length
         | none => false
       if !callsOk then { j' with err := some s!"C05-handler-args-invalid step={j.idx}" } else
+      -- C08: the stream ends inside a message ⇒ an error (a clean `disconnected` only at a message boundary), no dispatch
+      let closing := rest.contains "close"
+      let truncated := closing && j.alignedSoFar &&
+        (bytes.length < 12 || bytes.length < 12 + leVal ((bytes.drop 8).take 4)) &&
+        (bytes.length < 12 || decide (validHeader frontendCodes (leVal (bytes.take 4)) (leVal ((bytes.drop 4).take 4)) (leVal ((bytes.drop 8).take 4))))
+      if truncated && nf ≤ 32 then
+        if !(o.calls == some []) then { j' with err := some s!"C08-partial-request-dispatched step={j.idx}" }
+        else if !o.r.startsWith "err." then { j' with err := some s!"C08-truncation-not-an-error step={j.idx}" }
+        else if bytes.length > 0 && o.r == "err.disconnected" then { j' with err := some s!"C08-disconnected-mid-message step={j.idx}" }
+        else { j' with alignedSoFar := false }
+      else
       if !j.alignedSoFar || bytes.length < 12 then { j' with alignedSoFar := false } else
       let (code, flags, size) := hdrOf bytes
       let req : Req := ⟨code, flags, size, bytes.drop 12, nf⟩
